@@ -2849,8 +2849,9 @@ static Type *struct_decl(Token **rest, Token *tok) {
       mem->bit_offset = bits % (sz * 8);
       bits += mem->bit_width;
     } else {
-      if (!ty->is_packed)
-        bits = align_to(bits, mem->align * 8);
+      // Even in a packed struct a non-bit-field member starts at a
+      // byte boundary.
+      bits = align_to(bits, ty->is_packed ? 8 : mem->align * 8);
       mem->offset = bits / 8;
       bits += mem->ty->size * 8;
     }
